@@ -4,7 +4,8 @@ import Hive.Proofs.BatchWriterLife
 
 `NInv s`: `need ≤ sch` (every Enqueue that returned before Stop was invoked is covered by a scheduling),
 the scheduled flag alternates with resets, `fin`: once the writer has left its loop every scheduling has been written, committed and done; `errs`: no
-check of the trace predicate ever fails on a model trace.
+check of the trace predicate ever fails on a model trace; `snap_need`: what a Stop call has to wait for
+(`snap t`, the obligations at its invocation) is below `need`.
 -/
 namespace Hive.BatchWriter
 open Hive.Conc Hive.Spec.BatchWriter
@@ -15,10 +16,11 @@ structure NInv (s : St) : Prop where
   sch_rst : ∀ o, s.mon.sch o = s.rst o + (if s.flag o = true then 1 else 0)
   fin : (s.wpc = .wgDone ∨ s.wpc = .exited) → ∀ o, s.mon.dn o = s.mon.sch o
   errs : s.mon.errs = []
+  snap_need : ∀ t o, (s.mon.snap t) o ≤ s.mon.need o
 
 set_option hygiene false in
 macro "heavyN" : tactic => `(tactic|
-  ((try intro o) <;> (try have n2 := h2 o) <;> (try have n3 := h3 o) <;> (try have sn := hsn o) <;>
+  ((try intro o) <;> (try intro o') <;> (try have n6 := h6 o o') <;> (try have n2' := h2 o') <;> (try have n2 := h2 o) <;> (try have n3 := h3 o) <;> (try have sn := hsn o) <;>
    (try have w1 := (hw o).dn_com) <;> (try have w2 := (hw o).com_wr) <;> (try have w3 := (hw o).wr_rst) <;>
    (try have w4 := (hw o).rst_rcv) <;> (try have w5 := (hw o).rcv_snt) <;>
    (try simp [emit, Mon.step, TInv, holdW, holdR, atTop, inWin, bodyPre, upd_apply, Tab.get_set, *] at *) <;>
@@ -34,11 +36,12 @@ theorem fin_of_exit {s : St} (hw : ∀ o, WO s o) (hs : WS s)
   simp [holdW, holdR, h1, t.1, t2] at a1 a2 a3 a4
   omega
 
-theorem need_le_dn {s : St} (h2 : ∀ o, s.mon.need o ≤ s.mon.sch o)
+theorem snap_le_dn {s : St} (h2 : ∀ o, s.mon.need o ≤ s.mon.sch o)
     (h4 : (s.wpc = .wgDone ∨ s.wpc = .exited) → ∀ o, s.mon.dn o = s.mon.sch o)
-    (ht : s.wpc = .exited ∨ ∀ o, s.mon.need o = 0) (x : Nat) : s.mon.need x ≤ s.mon.dn x := by
+    (h6 : ∀ t o, (s.mon.snap t) o ≤ s.mon.need o) (id : Nat)
+    (ht : s.wpc = .exited ∨ ∀ o, (s.mon.snap id) o = 0) (x : Nat) : (s.mon.snap id) x ≤ s.mon.dn x := by
   rcases ht with ht | ht
-  · have := h4 (Or.inr ht) x; have := h2 x; omega
+  · have := h4 (Or.inr ht) x; have := h2 x; have := h6 id x; omega
   · simp [ht x]
 
 set_option maxRecDepth 4096 in
@@ -47,9 +50,9 @@ theorem ninv_step {s s' : St} {t t' : Thread} (h : NInv s) (hw : ∀ o, WO s o) 
     (ht : TInv s t) (hc : CFacts s t) (hsn : ∀ o, s.snt o ≤ s.mon.sch o)
     (hex : s.wpc = .loopCnt → s.count = 0 → ∀ o, s.mon.sch o = s.rcv o)
     (hm : (s', t') ∈ step s t) : NInv s' := by
-  obtain ⟨h1, h2, h3, h4, h5⟩ := h
+  obtain ⟨h1, h2, h3, h4, h5, h6⟩ := h
   have f1 := fin_of_exit hw hs hex
-  have f2 := need_le_dn h2 h4
+  have f2 := snap_le_dn h2 h4 h6
   have f3 : inWin t = true → ¬ (s.wpc = .wgDone ∨ s.wpc = .exited) := by
     intro a c
     have := hl.fin_win c
@@ -73,15 +76,17 @@ theorem ninv_step {s s' : St} {t t' : Thread} (h : NInv s) (hw : ∀ o, WO s o) 
     by_cases hf : s.flag s.wcur = true
     · exact hf
     · simp [hf] at *; omega
-  have f9 : (s.wpc = .exited ∨ ∀ o, s.mon.need o = 0) → (∃ x, x ∈ s.mon.objs ∧ s.mon.dn x < s.mon.need x) →
-      False := by
-    intro a ⟨x, _, hx⟩
-    have := f2 a x; omega
+  have f9 : ∀ id, (s.wpc = .exited ∨ ∀ o, (s.mon.snap id) o = 0) →
+      (∃ x, x ∈ s.mon.objs ∧ s.mon.dn x < (s.mon.snap id) x) → False := by
+    intro id a ⟨x, _, hx⟩
+    have := f2 id a x; omega
   clear hex hs hl hc
   step_cases
   all_goals (
-    refine ⟨?_, ?_, ?_, ?_, ?_⟩ <;> first | exact h1 | exact h2 | exact h3 | exact h4 | exact h5 | heavyN)
+    refine ⟨?_, ?_, ?_, ?_, ?_, ?_⟩ <;> first | exact h1 | exact h2 | exact h3 | exact h4 | exact h5 | exact h6 | heavyN)
   · have a := h2 o; have b := ht.1; omega
   · have a := h2 o; omega
+  · have a := h6 o o'; omega
+  · exact h6 o o'
   · intro e; subst e; simp_all
 end Hive.BatchWriter
